@@ -39,8 +39,10 @@ def run(prop, tier, cfg):
         # test profile (and silently wrap in a release profile) is a panic here, at the repo line that overflows
         env['CARGO_PROFILE_RELEASE_OVERFLOW_CHECKS'] = 'true'
         # only the requested tests run (test-name filters after `--`)
-        cmd = ['cargo', 'test', '--offline', '--release', '--features', 'charsets,multipart-form,json,form', '--lib', '--'] + names + ['--nocapture', '--test-threads', '8']
-        try:
+        dropped = {}   # harness file -> names of its checks: files that do not compile against this tree are left out
+        for attempt in range(3):
+          cmd = ['cargo', 'test', '--offline', '--release', '--features', 'charsets,multipart-form,json,form', '--lib', '--'] + names + ['--nocapture', '--test-threads', '8']
+          try:
             # one build at a time in the shared target directory (two checks running side by side must not pick up each other's binary)
             import fcntl
             os.makedirs(env['CARGO_TARGET_DIR'], exist_ok=True)
@@ -53,15 +55,32 @@ def run(prop, tier, cfg):
                     for fn in files:
                         os.utime(os.path.join(root, fn), (now, now))
                 p = subprocess.run(cmd, cwd=scratch, env=env, capture_output=True, text=True, timeout=cfg.get('timeout', 1500))
-        except subprocess.TimeoutExpired:
+          except subprocess.TimeoutExpired:
             out['undecided'].append('native checks timed out')
             return out
-        txt = p.stdout + p.stderr
-        if os.environ.get('VP_NATIVE_LOG'):
+          txt = p.stdout + p.stderr
+          if os.environ.get('VP_NATIVE_LOG'):
             open(os.environ['VP_NATIVE_LOG'], 'w').write(txt)
-        if 'error: could not compile' in txt or 'error[E' in txt:
+          if 'error: could not compile' in txt or 'error[E' in txt:
+            # a check file that calls a private function the changed tree no longer has (or has with another signature) does not
+            # compile; the other files' checks are still worth running: leave the offending files out and build again
+            bad = set(re.findall(r'-->\s+\S*?src/verif_native_(\w+)\.rs:\d+', txt)) - {'watchdog'}
+            in_repo = re.findall(r'-->\s+src/(?!verif_native_)\S+', txt)
+            if bad and not in_repo and attempt < 2:
+                for b in bad:
+                    hp = os.path.join(scratch, 'src', 'verif_native_%s.rs' % b)
+                    mine = re.findall(r'fn (vp_native_\w+?)\(\)', open(os.path.join(VERIF, 'native', b + '.rs')).read())
+                    dropped[b] = [n for n in mine if n in names]
+                    open(hp, 'w').write('// left out: does not compile against this tree\n')
+                names = [n for n in names if not any(n in v for v in dropped.values())]
+                if names:
+                    continue
             out['undecided'].append('native checks do not compile against this tree: ' + txt[-400:].replace('\n', ' '))
             return out
+          break
+        for b, lost in dropped.items():
+            if lost:
+                out['undecided'].append('bounded checks of native/%s.rs (%s) do not compile against this tree and were left out' % (b, ', '.join(x.replace('vp_native_', '') for x in lost)))
         for t in cfg['tests']:
             if t['name'] not in names:
                 continue
